@@ -16,6 +16,12 @@ def dispatch(prop, tier, seed):
     if prop in TM_PROPS:
         from . import checks_tm
         return checks_tm.check(prop, tier, seed)
+    if prop == "C10":
+        from . import eng_lru
+        return eng_lru.check(prop, tier, seed)
+    if prop == "C11":
+        from . import eng_lruconc
+        return eng_lruconc.check(prop, tier, seed)
     if prop == "C09":
         from . import eng_tee
         return eng_tee.check(prop, tier, seed)
